@@ -37,6 +37,20 @@ pub(crate) struct SubSocketBackend {
 }
 
 impl SubSocketBackend {
+    /// `peer_disconnected` for a caller that held the peer's table entry across an await. Meanwhile
+    /// a task registering another peer may have queued for the same bucket; it is next in line
+    /// and may need this very thread to run, so the removal is awaited: a blocking wait could
+    /// never be granted on a single-threaded runtime.
+    async fn forget_peer(&self, peer_id: &PeerIdentity) {
+        if let Some(monitor) = self.monitor().lock().as_mut() {
+            let _ = monitor.try_send(SocketEvent::Disconnected(peer_id.clone()));
+        }
+        self.peers.remove_async(peer_id).await;
+        if let Some(inner) = &self.fair_queue_inner {
+            inner.lock().remove(peer_id);
+        }
+    }
+
     pub(crate) fn with_options(
         fair_queue_inner: Option<Arc<Mutex<QueueInner<ZmqFramedRead, PeerIdentity>>>>,
         socket_type: SocketType,
@@ -186,7 +200,7 @@ impl SubSocket {
             iter = peer.next_async().await;
         }
         for peer_id in dead_peers {
-            self.backend.peer_disconnected(&peer_id);
+            self.backend.forget_peer(&peer_id).await;
         }
         match first_error {
             Some(e) => Err(e.into()),
